@@ -286,6 +286,32 @@ static void scLogging(tse::Out &out)
         out.fail("C19|logging|lost-message", "3 messages were logged but the handlers received " + std::to_string(h1.n + h2.n));
 }
 
+// logging while another thread switches the output OFF and back on: every message is delivered once or dropped, nothing else
+static void scLoggingOff(tse::Out &out)
+{
+    static NullHandler h1;
+    h1.n = 0;
+    ompl::msg::setLogLevel(ompl::msg::LOG_INFO);
+    ompl::msg::useOutputHandler(&h1);
+    std::thread t1([&] {
+        OMPL_INFORM("message %d", 1);
+        OMPL_WARN("message %d", 2);
+    });
+    std::thread t2([&] {
+        ompl::msg::noOutputHandler();
+        ompl::msg::restorePreviousOutputHandler();
+    });
+    t1.join();
+    t2.join();
+    bool restored = ompl::msg::getOutputHandler() == &h1;
+    ompl::msg::setLogLevel(ompl::msg::LOG_NONE);
+    out.obs = "delivered=" + std::to_string(h1.n) + " restored=" + std::to_string(restored);
+    if (h1.n > 2)
+        out.fail("C19|logging|duplicated-message", "2 messages were logged but the handler received " + std::to_string(h1.n));
+    if (!restored)
+        out.fail("C19|logging|handler-not-restored", "after noOutputHandler(); restorePreviousOutputHandler() the original handler is not installed");
+}
+
 static void scTerminate(tse::Out &out)
 {
     ob::PlannerTerminationCondition ptc([] { return false; });
@@ -894,6 +920,7 @@ static std::vector<Scenario> scenarios()
         {"rng", scRng, true, 1, 2, 50000},
         {"solutions", scSolutions, true, 1, 2, 50000},
         {"logging", scLogging, true, 1, 2, 50000},
+        {"logging-off", scLoggingOff, true, 1, 2, 50000},
         {"terminate", scTerminate, true, 2, 3, 50000},
         {"periodic", scPeriodic, true, 1, 2, 50000},
         {"periodic-terminate", scPeriodicTerminate, true, 1, 2, 50000},
